@@ -60,6 +60,23 @@ theorem matchLit_same (env : Env) (ic : Bool) (p0 : Nat) : ∀ (l : List Nat) (s
     · exact ⟨rfl, rfl, rfl, rfl, rfl, rfl, rfl, rfl⟩
     · exact Same.trans (advance_same env s) (matchLit_same env ic p0 r _)
 
+theorem advanceTo_same (env : Env) (t : Nat) : ∀ (fuel : Nat) (s : PState), Same s (advanceTo env t fuel s)
+  | 0, s => Same.rfl' s
+  | n+1, s => by
+    simp only [advanceTo]
+    split
+    · exact Same.trans (advance_same env s) (advanceTo_same env t n _)
+    · exact Same.rfl' s
+
+theorem prepareCustom_same (env : Env) (s : PState) : Same s (prepareCustom env s).1 := by
+  simp only [prepareCustom]
+  split
+  · exact ⟨rfl, rfl, rfl, rfl, rfl, rfl, rfl, rfl⟩
+  · split
+    · have h1 : Same s { s with pending := some (s.pos, env.custom s.pos) } := ⟨rfl, rfl, rfl, rfl, rfl, rfl, rfl, rfl⟩
+      exact Same.trans h1 (advanceTo_same env _ _ _)
+    · exact ⟨rfl, rfl, rfl, rfl, rfl, rfl, rfl, rfl⟩
+
 def Pure (f : PState → PState × Bool) : Prop := ∀ s, s.skip > 0 → Same s (f s).1
 
 theorem skip_pure (env : Env) (hrules : ∀ i, i < env.rules.size → skipOK env.acts env.rules.size (env.rules[i]!) = true) : ∀ fuel,
@@ -115,7 +132,12 @@ theorem skip_pure (env : Env) (hrules : ∀ i, i < env.rules.size → skipOK env
         simp only [skipOK] at hc
         simp only [parseNode, evalPred]
         have := addErr_same env _ s hc
-        split <;> first | exact this | exact Same.trans this ⟨rfl, rfl, rfl, rfl, rfl, rfl, rfl, rfl⟩
+        split
+        · exact this
+        · exact this
+        · exact Same.trans this (prepareCustom_same env _)
+        · exact Same.trans this ⟨rfl, rfl, rfl, rfl, rfl, rfl, rfl, rfl⟩
+        · exact Same.trans this ⟨rfl, rfl, rfl, rfl, rfl, rfl, rfl, rfl⟩
       | and_ i e' =>
         simp only [skipOK] at hc
         simp only [parseNode]
